@@ -119,6 +119,10 @@ ReqCertC03(a, o) == {
                                             (a.issuer.subjectRaw # "" => o.issuerRaw = a.issuer.subjectRaw)>>,
   <<"C03.self_signed_issuer_eq_subject",    a.self => o.issuerRaw = o.subjectRaw>>,
   (* the issuer certificate made from (issuer.kid, signer key) carries KeyId(issuer.kid, signer key) as its subject key identifier *)
+  (* ... and, where the driver read it from the issuer certificate's bytes, the identifier that certificate really carries *)
+  <<"C03.aki_eq_ski_carried_by_issuer_certificate",
+        "ski" \in DOMAIN a.issuer /\ a.issuer.ski.k = "some" /\ WantAki(a.params) /\ OidAki \notin CustomOids(a.params) /\ Has(o.exts, OidAki) =>
+          Ext(o.exts, OidAki).kind = "aki" /\ Ext(o.exts, OidAki).id = a.issuer.ski>>,
   <<"C03.aki_eq_issuer_ski",    WantAki(a.params) /\ OidAki \notin CustomOids(a.params) /\ Has(o.exts, OidAki) =>
                                   Ext(o.exts, OidAki).kind = "aki" /\ Ext(o.exts, OidAki).id = [k |-> "some", b |-> KeyId(a.issuer.kid, a.signerKey)]>>
   }
